@@ -170,6 +170,29 @@ func loadFont(rel string, index int) (*fontEntry, error) {
 	} else {
 		fe.note = "reference does not see this face index"
 	}
+	// loader precondition: the character map must be one both loaders select the same way. The
+	// reference (like upstream) only selects Unicode / Microsoft subtables; the port additionally
+	// falls back to "the first subtable, whatever it is" (Macintosh encodings decoded as MacRoman).
+	if lds, err := corpus.Loaders(rel); err == nil && index < len(lds) {
+		if raw, err := lds[index].RawTable(ot.MustNewTag("cmap")); err == nil {
+			if cm, _, err := tables.ParseCmap(raw); err == nil {
+				unicode := false
+				for _, r := range cm.Records {
+					if _, isUVS := r.Subtable.(tables.CmapSubtable14); isUVS {
+						continue
+					}
+					p, e := int(r.PlatformID), int(r.EncodingID)
+					if p == 3 && (e == 0 || e == 1 || e == 10) || p == 0 && (e <= 4 || e == 6) {
+						unicode = true
+					}
+				}
+				if !unicode && fe.hbOK {
+					fe.hbOK = false
+					fe.note = "cmap has no Unicode/Microsoft subtable: the port falls back to a Macintosh subtable, the reference maps nothing"
+				}
+			}
+		}
+	}
 	// axes, through the public table parser
 	if lds, err := corpus.Loaders(rel); err == nil && index < len(lds) {
 		if raw, err := lds[index].RawTable(ot.MustNewTag("fvar")); err == nil {
